@@ -668,6 +668,24 @@ class Truncate(Family):
                 for v in [str(true + d) for d in (-3, -2, -1, 1, 2, 3)] + ['0', '-1', 'abc', '1_0', str(2 ** 70),
                                                                           str(true + 10 ** 6)]:
                     yield dict(kind='length', file=f, at=si, value=v)
+            # framing of LARGE content (sizes around the usual buffer sizes): exactly `length` bytes, then the next header
+            if i < 5:
+                n = (8191, 8192, 8193, 65536, 65537)[i]
+                body = (b'a' * 70 + b'\n') * (n // 71) + b'b' * (n - 71 * (n // 71) - 1) + b'\n'
+                big = dict(crlf=False, trailing=[], sections=[
+                    dict(id='diffx', opts=[['version', '1.0'], ['encoding', 'utf-8']], blank=[], content=None, expect={}, enc=None, ast=None),
+                    dict(id='.preamble', opts=[['length', str(len(body))], ['indent', '0']], blank=[], content=body.hex(),
+                         expect=dict(text=body.decode('ascii')), enc='utf-8', ast=None),
+                    dict(id='.change', opts=[], blank=[], content=None, expect={}, enc=None, ast=None),
+                    dict(id='..file', opts=[], blank=[], content=None, expect={}, enc=None, ast=None),
+                    dict(id='...meta', opts=[['length', '3']], blank=[], content=b'{}\n'.hex(), expect=dict(metadata={}), enc='utf-8', ast=None)])
+                yield dict(kind='frame', file=big)
+                data_big = gf.render(big)
+                hdr_end = data_big.index(b'\n', data_big.index(b'#.preamble')) + 1
+                for k in (hdr_end, hdr_end + 1, hdr_end + 71, hdr_end + len(body) - 1, hdr_end + len(body), hdr_end + len(body) + 1,
+                          hdr_end + 8192, hdr_end + 8191):
+                    if k <= len(data_big):
+                        yield dict(kind='cut', file=big, cut=k)
             # framing at block boundaries: a content header padded (with an unknown option) so that its line ends
             # just before / at / after a 96-byte read-ahead block; the content must still be exactly `length` bytes
             cands = [si for si, s in enumerate(f['sections']) if s['content'] is not None]
@@ -1022,6 +1040,13 @@ class HeaderFam(Family):
         for n in (4299, 4300, 4301):
             for pre in (b'', b'-', b'000'):
                 yield dict(kind='bigint', line=hx(b'#.change: a=' + pre + b'9' * n))
+        # size boundaries: very long keys, values and option lists (a header line longer than any buffer)
+        for n in (95, 96, 97, 4095, 4096, 8191, 8192, 8193, 65536):
+            yield dict(kind='long', line=hx(b'#.change: k=' + b'v' * n))
+            yield dict(kind='long', line=hx(b'#.change: ' + b'k' * n + b'=v'))
+            yield dict(kind='long', line=hx(b'#.change: k=' + b'v' * n + b'+'))
+            yield dict(kind='long', line=hx(b'#.change: ' + b', '.join(b'k%d=%d' % (j, j) for j in range(n // 8 + 1))))
+            yield dict(kind='long', line=hx(b'#.change: k=1' + b' ' * n))
         # repeated keys: EVERY pair must match the grammar, not only the one whose value survives (last one wins)
         bads = [b'+', b'a:b', b'a=b', b'#', b'\xc3\xa9', b'a+b', b'1:0']
         goods = [b'v', b'1', b'a/b']
@@ -1120,6 +1145,12 @@ class Chunk(Family):
                     for b in list(range(1, 193)) + [100000]:
                         if fi == 0 or (p + b) % 7 == 0 or b in (1, 96, 100000):
                             grid.append((fi, p, b))
+        # size boundaries: first headers thousands of bytes long (many read-ahead blocks), larger block sizes
+        for fi in range(min(2, len(files))):
+            for p in (8095, 8096, 8097, 8191, 8192, 8193, 65439, 65440, 65536):
+                for b in (96, 97, 4096, 8192):
+                    if tier != 'quick' or (p + b + fi) % 3 == 0:
+                        grid.append((fi, p, b))
         for (fi, p, b) in grid:
             yield dict(kind='grid', data=hx(files[fi]), pad=p, block=b)
 
